@@ -72,7 +72,7 @@ func c11GenValue(r *kit.Rand, depth int, refs []kit.XRef, feat map[string]bool) 
 	}
 }
 
-func c11NewGraph(r *kit.Rand, forXWrite bool) *c11Graph {
+func c11NewGraph(r *kit.Rand, forXWrite bool, cryptFilters bool) *c11Graph {
 	g := &c11Graph{objs: map[uint32]any{}, bodies: map[uint32][]byte{}, freed: map[uint32]bool{}, hasFeat: map[string]bool{}}
 	n := 2 + r.Intn(39)
 	if r.Chance(2, 3) {
@@ -85,7 +85,15 @@ func c11NewGraph(r *kit.Rand, forXWrite bool) *c11Graph {
 	}
 	pool := append([]kit.XRef{}, refs...)
 	pool = append(pool, kit.XRef{Num: 900}, kit.XRef{Num: 3, Gen: 4}) // dangling, wrong generation
+	if cryptFilters {
+		// the object that holds the name /Crypt for indirect filter entries
+		g.nums = append(g.nums, uint32(3+n))
+		g.objs[uint32(3+n)] = kit.XName("Crypt")
+	}
 	for _, num := range g.nums {
+		if _, fixed := g.objs[num]; fixed {
+			continue
+		}
 		switch k := r.Intn(10); {
 		case k == 0: // an indirect object that is itself a reference (chains arise from these)
 			g.objs[num] = kit.Pick(r, pool)
@@ -97,7 +105,19 @@ func c11NewGraph(r *kit.Rand, forXWrite bool) *c11Graph {
 			}
 			d := kit.XDict{"Own": c11GenValue(r, 1, pool, g.hasFeat), "Num": int64(num)}
 			raw := body
-			if r.Bool() {
+			if cryptFilters && r.Chance(1, 2) {
+				// an Identity crypt filter: the data of this stream is not encrypted.
+				// The /Crypt name may be given indirectly (object 3+n holds the name).
+				raw = kit.Deflate(body)
+				cryptName := any(kit.XName("Crypt"))
+				if r.Bool() {
+					cryptName = kit.XRef{Num: uint32(3 + n)}
+					g.hasFeat["indirect-filter-name"] = true
+				}
+				d["Filter"] = kit.XArray{cryptName, kit.XName("FlateDecode")}
+				d["DecodeParms"] = kit.XArray{kit.XDict{"Type": kit.XName("CryptFilterDecodeParms"), "Name": kit.XName("Identity")}, nil}
+				g.hasFeat["identity-crypt-filter"] = true
+			} else if r.Bool() {
 				raw = kit.Deflate(body)
 				d["Filter"] = kit.XName("FlateDecode")
 				if forXWrite && r.Chance(1, 3) {
@@ -335,15 +355,29 @@ func (m *c11Iso) same(path string, src any, dst pdf.Object, viaChain bool) {
 
 // c11Source serialises the graph, either with the independent serialiser or
 // with the library's Writer (possibly encrypted), and opens it.
-func c11Source(c *kit.Case, g *c11Graph, viaXWrite bool) (*pdf.Reader, string, bool) {
+func c11Source(c *kit.Case, g *c11Graph, viaXWrite bool, encrypted bool) (*pdf.Reader, string, bool) {
 	r := c.Rng
 	if viaXWrite {
 		h := &kit.XHistory{Version: kit.Pick(r, []string{"1.4", "1.5", "1.7"})}
+		var sec *kit.XSec
+		extra := kit.XDict{}
+		if encrypted {
+			fl := kit.Pick(r, []struct {
+				rev, bits int
+				aes       bool
+				version   string
+			}{{4, 128, false, "1.5"}, {4, 128, true, "1.6"}, {6, 256, true, "2.0"}})
+			h.Version = fl.version
+			id0 := r.Bytes(16)
+			sec = kit.NewXSec(fl.rev, fl.bits, fl.aes, []byte("user"), []byte("owner"), -4, true, id0, r.Bytes)
+			extra["Encrypt"] = sec.Dict()
+			extra["ID"] = kit.XArray{kit.XString(id0), kit.XString(r.Bytes(16))}
+		}
 		kind := "table"
 		if h.Version != "1.4" {
 			kind = kit.Pick(r, []string{"table", "stream", "hybrid"})
 		}
-		rev := kit.XRev{Actions: map[uint32]kit.XAction{}, Kind: kind}
+		rev := kit.XRev{Actions: map[uint32]kit.XAction{}, Kind: kind, Extra: extra}
 		rev.Actions[1] = kit.XAction{Value: kit.XDict{"Type": kit.XName("Catalog"), "Pages": kit.XRef{Num: 2}}}
 		rev.Actions[2] = kit.XAction{Value: kit.XDict{"Type": kit.XName("Pages"), "Kids": kit.XArray{}, "Count": int64(0)}}
 		for _, n := range g.nums {
@@ -352,9 +386,12 @@ func c11Source(c *kit.Case, g *c11Graph, viaXWrite bool) (*pdf.Reader, string, b
 		h.Revs = []kit.XRev{rev}
 		if r.Chance(1, 3) && len(g.nums) > 2 {
 			// an incremental update frees some objects: references to them are free references
-			upd := kit.XRev{Actions: map[uint32]kit.XAction{}, Kind: kind}
+			upd := kit.XRev{Actions: map[uint32]kit.XAction{}, Kind: kind, Extra: extra}
 			for i := 0; i < 1+r.Intn(2); i++ {
 				n := kit.Pick(r, g.nums)
+				if _, isName := g.objs[n].(kit.XName); isName {
+					continue // the object that holds a filter name stays
+				}
 				if !g.freed[n] {
 					g.freed[n] = true
 					upd.Actions[n] = kit.XAction{Free: true, Gen: 1}
@@ -363,14 +400,58 @@ func c11Source(c *kit.Case, g *c11Graph, viaXWrite bool) (*pdf.Reader, string, b
 			}
 			h.Revs = append(h.Revs, upd)
 		}
-		data, _ := kit.RenderHistory(r, h, r.Bool(), nil)
+		var encrypt func(num uint32, gen uint16, v any) any
+		if sec != nil {
+			encrypt = func(num uint32, gen uint16, v any) any {
+				var enc func(v any) any
+				enc = func(v any) any {
+					switch x := v.(type) {
+					case kit.XString:
+						return kit.XString(sec.Encrypt(num, gen, x, r.Bytes(16)))
+					case kit.XArray:
+						out := make(kit.XArray, len(x))
+						for i, e := range x {
+							out[i] = enc(e)
+						}
+						return out
+					case kit.XDict:
+						out := kit.XDict{}
+						for k, e := range x {
+							out[k] = enc(e)
+						}
+						return out
+					case *kit.XStream:
+						if x.Dict["Type"] == kit.XName("ObjStm") {
+							return &kit.XStream{Dict: x.Dict, Raw: sec.Encrypt(num, gen, x.Raw, r.Bytes(16))}
+						}
+						raw := x.Raw
+						if _, identity := x.Dict["DecodeParms"].(kit.XArray); !identity || x.Dict["Filter"] == nil {
+							raw = sec.Encrypt(num, gen, x.Raw, r.Bytes(16))
+						} else if fa, ok := x.Dict["Filter"].(kit.XArray); !ok || len(fa) != 2 {
+							raw = sec.Encrypt(num, gen, x.Raw, r.Bytes(16))
+						}
+						return &kit.XStream{Dict: enc(x.Dict).(kit.XDict), Raw: raw}
+					}
+					return v
+				}
+				return enc(v)
+			}
+		}
+		data, _ := kit.RenderHistory(r, h, r.Bool(), encrypt)
 		if c.R.Replaying() {
 			os.WriteFile(filepath.Join(c.R.OutDir(), "c11-source.pdf"), data, 0o644)
 		}
-		rd, err := pdf.NewReader(bytes.NewReader(data), int64(len(data)), nil)
+		var ropt *pdf.ReaderOptions
+		if sec != nil {
+			ropt = &pdf.ReaderOptions{Password: kit.Pick(r, []string{"user", "owner"})}
+		}
+		rd, err := pdf.NewReader(bytes.NewReader(data), int64(len(data)), ropt)
 		if err != nil {
 			c.Violationf("harness/source-unreadable", "source rendered by xwrite does not open: %v", err)
 			return nil, "", false
+		}
+		if sec != nil {
+			return rd, fmt.Sprintf("xwrite-encrypted-R%d/%s", sec.R, kind), true
 		}
 		return rd, "xwrite/" + kind, true
 	}
@@ -442,9 +523,10 @@ func TestVerifC11(t *testing.T) {
 	defer r.Finish()
 	r.Phase("graphs", r.N(15000, 400000), func(c *kit.Case) {
 		rng := c.Rng
-		viaXWrite := rng.Bool()
-		g := c11NewGraph(rng, viaXWrite)
-		src, srcKind, ok := c11Source(c, g, viaXWrite)
+		viaXWrite := rng.Chance(2, 3)
+		encryptedForeign := viaXWrite && rng.Bool()
+		g := c11NewGraph(rng, viaXWrite, encryptedForeign)
+		src, srcKind, ok := c11Source(c, g, viaXWrite, encryptedForeign)
 		if !ok {
 			return
 		}
